@@ -284,6 +284,9 @@ def clauses(q, ctx, lang):
         head = 'SELECT'
         if q.get('top') is not None and q.get('top_kw', 'top') == 'top':
             head += ' TOP %d' % q['top']
+        elif q.get('top') is not None and q.get('top_ignored') is not None:
+            # both spellings of the bound in one query: LIMIT decides, the TOP value is ignored
+            head += ' TOP %d' % q['top_ignored']
         if q.get('distinct') == 'distinct':
             head += ' DISTINCT'
         elif q.get('distinct') == 'count':
@@ -424,7 +427,7 @@ def respell(q, ctx, rng, lang='py'):
     q = copy.deepcopy(q)
     cmt = '#' if lang == 'py' else '//'
     # interchangeable spellings on the structure
-    if q.get('top') is not None and q['kind'] == 'select' and rng.random() < 0.5:
+    if q.get('top') is not None and q['kind'] == 'select' and rng.random() < 0.5 and q.get('top_ignored') is None:
         q['top_kw'] = 'limit' if q.get('top_kw', 'top') == 'top' else 'top'
     if q.get('join'):
         j = q['join']
@@ -483,7 +486,8 @@ def respell(q, ctx, rng, lang='py'):
                 out.append('\n' + ' ' * rng.randrange(0, 3))
             else:
                 # comment lines are not query text: whatever they say - clauses, variables of columns that do not exist, quotes - changes nothing
-                out.append('\n%s %s\n  ' % (cmt, rng.choice(['comment: select * from x where y order by z', 'where a.cost > 4 and b.nosuch == a.k.a', 'see a.csv / b.csv, a["gone"], b[\'x\']',
+                # (the comment line itself may be indented, with a tab too: leading white space does not make it query text)
+                out.append('\n%s%s %s\n  ' % (rng.choice(['', '', ' ', '\t', '  \t ']), cmt, rng.choice(['comment: select * from x where y order by z', 'where a.cost > 4 and b.nosuch == a.k.a', 'see a.csv / b.csv, a["gone"], b[\'x\']',
                                                            'it\'s "quoted', 'a1 = 5, a77, NR, limit 1', 'join c on a1 == c1', ''])))
         out.append(p)
     s = ''.join(out)
@@ -493,9 +497,12 @@ def respell(q, ctx, rng, lang='py'):
         s = '%s %s\n' % (cmt, rng.choice(['leading comment', 'select a.none, b.gone', 'update a9 = "x'])) + s
     if rng.random() < 0.3:
         s = '  ' + s
+    crlf = rng.random() < 0.2 and '\r' not in s      # a query typed or pasted with CRLF line ends (no literal of the pool holds a line feed)
     if rng.random() < 0.2:
-        s += rng.choice([';', '']) + '\n%s trailing comment; select' % cmt
-        return s
+        s += rng.choice([';', '']) + '\n%s%s trailing comment; select' % (rng.choice(['', '', '\t', ' \t']), cmt)
+        return s.replace('\n', '\r\n') if crlf else s
+    if crlf:
+        s = s.replace('\n', '\r\n')
     r = rng.random()
     if r < 0.25:
         s += ';'
